@@ -14,7 +14,8 @@ META = {
     'level': 'model_checking',
     'technique': 'exhaustive enumeration of (real uid, uid list) pairs against plain set membership; filter functions directly and the whole logging path',
     'text': 'For each of 11 real uids assumed for real (setresuid, effective uid different) all ordered lists up to the length bound over ~30 near-miss items and long lists with the uid at every position '
-            'are evaluated by only_uid, exclude_uid and only_root: only_uid passes iff member, exclude_uid iff not, they never agree, only_root iff uid 0. Lists of <= 2 items also run through config file -> wrapper -> sink.',
+            'are evaluated by only_uid, exclude_uid and only_root: only_uid passes iff member, exclude_uid iff not, they never agree, only_root iff uid 0. Lists of <= 2 items also run through config file -> wrapper -> sink.'
+            ' Also: a user database in which every numeric list item is also a login name, and a build axis in which long has 32 bits (atol/strtol saturate as on ILP32).',
     'note': 'Malformed lists are C02\'s business. Reference = integer equality on strtoull of each item.',
 }
 NATIVE = os.path.join(VERIF, 'native')
